@@ -3,7 +3,7 @@
 # applies <patchdir>/patch_ported.diff (or patch.diff) to a fresh scratch worktree of /repo's HEAD, runs the check against it with
 # VERIF_REPO, evidence to a scratch dir; removes the worktree afterwards.  One worktree per (patch, property): runs may overlap.
 set -u
-PD=$1; P=$2; TIER=${3:-quick}
+PD=$(realpath $1); P=$2; TIER=${3:-quick}
 ID=$(basename $PD)
 WT=/tmp/wt-mut-$ID-$P
 git -C /repo worktree remove --force $WT >/dev/null 2>&1; rm -rf $WT
